@@ -154,6 +154,7 @@ def execute(trace):
         if name == 'encode_top':
             v = vs[op['a'] % len(vs)]
             res.hit('probe.encode_other_top')
+            own_before = R()
             try:
                 back = penman.decode(penman.encode(g, top=v, model=model), model=model)
             except Exception as e:
@@ -161,6 +162,10 @@ def execute(trace):
                             new_top=v, **base)
                 break
             want, got = R(v), rcontent.content_of_graph(back, mref)
+            if R() != own_before:
+                res.violate('content', 'encode-top-changed-its-argument', new_top=v,
+                            diff=rcontent.content_diff(own_before, R()), **base)
+                break
             res.event(i, name, v, digest.sha(rcontent.content_json(got)))
             if want != got:
                 res.violate('content', 'new-top-changed-content', new_top=v, diff=rcontent.content_diff(want, got),
@@ -175,7 +180,8 @@ def execute(trace):
             kf = None if key is None else getattr(model, key + '_order')
             if key == 'random':
                 res.hit('probe.reconfigure_random')
-            snapshot = digest.dumps(digest.canon_graph(g))
+            want = R(top)
+            own_before = R()
             with simrandom.installed(op.get('stream')) as stream:
                 try:
                     t = layout.reconfigure(g, top=top, model=model, key=kf)
@@ -184,7 +190,12 @@ def execute(trace):
                     res.violate('content', 'reconfigure-failed:' + type(e).__name__, error=digest.canon_exc(e),
                                 key=key, new_top=top, **base)
                     break
-            want, got = R(top), rcontent.content_of_graph(back, mref)
+            if R() != own_before:
+                # "re-layout operations never change the graph": the graph handed in keeps its top and content
+                res.violate('content', 'reconfigure-changed-its-argument', key=key, new_top=top,
+                            diff=rcontent.content_diff(own_before, R()), after=describe(), **base)
+                break
+            got = rcontent.content_of_graph(back, mref)
             res.event(i, name, key, top, digest.sha(rcontent.content_json(got)))
             if want != got:
                 res.violate('content', 'reconfigure-changed-content', key=key, new_top=top,
@@ -207,6 +218,7 @@ def execute(trace):
                 res.violate('content', 'configure-failed:' + type(e).__name__, error=digest.canon_exc(e), **base)
                 break
             before = copy.deepcopy(t.node)
+            want = R()
             funcs = [getattr(model, {'inverted-last': 'is_role_inverted'}.get(k, k + '_order')) for k in keys]
 
             def kf(role, funcs=funcs):
@@ -221,7 +233,11 @@ def execute(trace):
                     break
             if af:
                 res.hit('probe.rearrange_attributes_first')
-            want, got = R(), rcontent.content_of_graph(back, mref)
+            got = rcontent.content_of_graph(back, mref)
+            if R() != want:
+                res.violate('content', 'rearrange-changed-the-graph', keys=keys, attributes_first=af,
+                            diff=rcontent.content_diff(want, R()), **base)
+                break
             res.event(i, name, keys, af, digest.sha(digest.canon_node(t.node)))
             if want != got:
                 res.violate('content', 'rearrange-changed-content', keys=keys, attributes_first=af,
